@@ -187,46 +187,62 @@ func ruleP8(r *Run) {
 		}
 	}
 	n := 0
+	parents := parentMap(fd.Body)
+	seen := map[ast.Node]bool{}
 	ast.Inspect(fd.Body, func(m ast.Node) bool {
-		ifs, ok := m.(*ast.IfStmt)
-		if !ok {
+		lc, ok := m.(*ast.CallExpr)
+		if !ok || methodName(lc) != "loadAndDelete" {
 			return true
 		}
-		// the branch that delivers to the request's own channel: contains loadAndDelete(request.Index) and a send
-		local := false
-		ast.Inspect(ifs.Body, func(k ast.Node) bool {
-			if c, ok := k.(*ast.CallExpr); ok && methodName(c) == "loadAndDelete" {
-				local = true
+		// the region that fails the one oversized request: the body of the enclosing size test (an if without an init
+		// statement), or - when the size test is an early return for the GOOD case - the rest of the function body
+		var region []ast.Stmt
+		var at ast.Node
+		var child ast.Node = lc
+		for q := parents[lc]; q != nil; child, q = q, parents[q] {
+			if ifs, ok := q.(*ast.IfStmt); ok && ifs.Init == nil && child == ast.Node(ifs.Body) {
+				region, at = ifs.Body.List, ifs
+				break
 			}
-			return true
-		})
-		if !local || ifs.Init != nil {
+			if q == ast.Node(fd.Body) {
+				for i, st := range fd.Body.List {
+					if ast.Node(st) == child {
+						region, at = fd.Body.List[i:], st
+					}
+				}
+				break
+			}
+		}
+		if region == nil || seen[at] {
 			return true
 		}
+		seen[at] = true
 		n++
 		key := fmt.Sprintf("request-local failure in rpc/udp.conn.send #%d", n)
 		bad := ""
-		ast.Inspect(ifs.Body, func(k ast.Node) bool {
-			switch x := k.(type) {
-			case *ast.AssignStmt:
-				for _, l := range x.Lhs {
-					if identObj(info, l) == errRes && errRes != nil {
-						bad = "assigns the function's error result at " + p.Rel(x.Pos())
+		for _, st := range region {
+			ast.Inspect(st, func(k ast.Node) bool {
+				switch x := k.(type) {
+				case *ast.AssignStmt:
+					for _, l := range x.Lhs {
+						if identObj(info, l) == errRes && errRes != nil {
+							bad = "assigns the function's error result at " + p.Rel(x.Pos())
+						}
+					}
+				case *ast.ReturnStmt:
+					if len(x.Results) == 1 {
+						if id, ok := ast.Unparen(x.Results[0]).(*ast.Ident); !ok || id.Name != "nil" {
+							bad = "returns " + types.ExprString(x.Results[0]) + " at " + p.Rel(x.Pos())
+						}
 					}
 				}
-			case *ast.ReturnStmt:
-				if len(x.Results) == 1 {
-					if id, ok := ast.Unparen(x.Results[0]).(*ast.Ident); !ok || id.Name != "nil" {
-						bad = "returns " + types.ExprString(x.Results[0]) + " at " + p.Rel(x.Pos())
-					}
-				}
-			}
-			return true
-		})
-		if !endsInJump(ifs.Body.List) {
+				return true
+			})
+		}
+		if !endsInJump(region) {
 			bad = "falls through to the datagram write"
 		}
-		r.Check(bad == "", key, ifs.Pos(), "delivered to the request's own channel; nil returned to the sender loop", "the branch that fails one oversized request "+bad+": the sender loop ends, the shared socket is closed and every other pending call on the connection receives this request's error")
+		r.Check(bad == "", key, at.Pos(), "delivered to the request's own channel; nil returned to the sender loop", "the branch that fails one oversized request "+bad+": the sender loop ends, the shared socket is closed and every other pending call on the connection receives this request's error")
 		return true
 	})
 	if n == 0 {
